@@ -303,18 +303,21 @@ impl G {
         let ty = self.ty();
         let mut specs = Vec::new();
         let n = self.r.below(4);
-        let mut used = [false; 8];
+        let mut used = [false; 9];
         for _ in 0..n {
-            let kind = self.r.below(8) as u8;
+            let kind = self.r.below(9) as u8;
             if used[kind as usize] { continue; }
             used[kind as usize] = true;
-            // 0 NOT NULL 1 NULL 2 DEFAULT 3 UNIQUE 4 PRIMARY KEY 5 AUTO_INCREMENT 6 CHECK 7 COMMENT (MySQL)
+            // 0 NOT NULL 1 NULL 2 DEFAULT 3 UNIQUE 4 PRIMARY KEY 5 AUTO_INCREMENT 6 CHECK 7 COMMENT (MySQL) 8 GENERATED ALWAYS AS (..) STORED | VIRTUAL
+            // (Postgres: STORED only; MODIFY COLUMN on Postgres writes nothing for it; not together with DEFAULT / AUTO_INCREMENT)
+            if kind == 8 && (used[2] || used[5] || (for_modify && self.b == B::Postgres)) { continue; }
+            if (kind == 2 || kind == 5) && used[8] { continue; }
             if kind == 1 && used[0] || kind == 0 && used[1] { continue; }
             if kind == 5 && !(matches!(ty, ColumnType::SmallInteger | ColumnType::Integer | ColumnType::BigInteger)) { continue; }
             if for_modify && self.b == B::Postgres && (kind == 5) { continue; }
             let val = if kind == 2 { Some(match self.r.below(3) { 0 => Value::Int(Some(self.r.below(50) as i32)), 1 => Value::String(Some(Box::new("it's".into()))), _ => Value::Bool(Some(true)) }) } else { None };
             if for_modify && self.b == B::Postgres && (kind == 6 || kind == 7) { self.pg_modify_odd = true; }
-            specs.push(Spec { kind, val, text: if kind == 7 { "a 'comment'".into() } else { String::new() } });
+            specs.push(Spec { kind, val, text: if kind == 7 { "a 'comment'".into() } else if kind == 8 { (if self.b == B::Postgres || self.r.chance(1, 2) { "STORED" } else { "VIRTUAL" }).into() } else { String::new() } });
         }
         let money_mods = self.b == B::Postgres && matches!(ty, ColumnType::Money(Some(_)));
         if money_mods { self.money_mods = true; }
@@ -324,7 +327,8 @@ impl G {
         let mut d = if with_type { ColumnDef::new_with_type(a(&c.name), c.ty.clone()) } else { ColumnDef::new(a(&c.name)) };
         for s in &c.specs {
             match s.kind { 0 => { d.not_null(); } 1 => { d.null(); } 2 => { d.default(s.val.clone().unwrap()); } 3 => { d.unique_key(); } 4 => { d.primary_key(); } 5 => { d.auto_increment(); }
-                6 => { d.check(Expr::col(a(&c.name)).gt(Expr::val(0))); } _ => { d.comment(s.text.as_str()); } }
+                6 => { d.check(Expr::col(a(&c.name)).gt(Expr::val(0))); } 7 => { d.comment(s.text.as_str()); }
+                _ => { d.generated(Expr::col(a("base")).mul(Expr::val(2)), s.text == "STORED"); } }
         }
         d
     }
@@ -338,7 +342,8 @@ impl G {
             match s.kind { 0 => v.push(l("NOT NULL")), 1 => v.push(l("NULL")), 2 => v.push(n("default", vec![self.lit(s.val.as_ref().unwrap())])), 3 => v.push(l("UNIQUE")), 4 => v.push(l("PRIMARY KEY")),
                 5 => { if self.b == B::Mysql { v.push(l("AUTO_INCREMENT")); } }
                 6 => v.push(n("check", vec![n("op:>", vec![l(format!("col:{}", c.name)), l("num:0")])])),
-                _ => { if self.b == B::Mysql { v.push(l(format!("comment:{}", s.text))); } } }
+                7 => { if self.b == B::Mysql { v.push(l(format!("comment:{}", s.text))); } }
+                _ => v.push(n(&format!("generated:{}", s.text), vec![n("op:*", vec![l("col:base"), l("num:2")])])) }
         }
         Some(n("column", v))
     }
@@ -509,7 +514,16 @@ fn gen_case(g: &mut G) -> Case {
                     Case { what: "create type", sql: render(&|| st.to_string(PostgresQueryBuilder)), expect: Some(n("create-type", vec![l(format!("name:{nm}")), n("labels", labels[..k].iter().map(|s| l(format!("label:{s}"))).collect())])), class: None } }
                 1 => { let mut st = Type::drop(); st.name(a(&nm)); let mut v = Vec::new(); if g.r.chance(1, 2) { st.if_exists(); v.push(l("IF EXISTS")); } v.push(l(format!("name:{nm}"))); if g.r.chance(1, 3) { st.cascade(); v.push(l("CASCADE")); }
                     Case { what: "drop type", sql: render(&|| st.to_string(PostgresQueryBuilder)), expect: Some(n("drop-type", v)), class: None } }
-                2 => { let st = Type::alter().name(a(&nm)).add_value(a("new'v")); let (st, v) = if g.r.chance(1, 2) { (st.before(a("ok")), vec![l(format!("name:{nm}")), l("add:new'v"), l("before:ok")]) } else { (st, vec![l(format!("name:{nm}")), l("add:new'v")]) };
+                2 => { // ADD VALUE with its two options set in either call order
+                    let placement = g.r.below(3); let ine = g.r.chance(1, 2); let ine_first = g.r.chance(1, 2);
+                    let mut st = Type::alter().name(a(&nm)).add_value(a("new'v"));
+                    if ine && ine_first { st = st.if_not_exists(); }
+                    st = match placement { 0 => st.before(a("ok")), 1 => st.after(a("ok")), _ => st };
+                    if ine && !ine_first { st = st.if_not_exists(); }
+                    let mut v = vec![l(format!("name:{nm}"))];
+                    if ine { v.push(l("IF NOT EXISTS")); }
+                    v.push(l("add:new'v"));
+                    match placement { 0 => v.push(l("before:ok")), 1 => v.push(l("after:ok")), _ => {} }
                     Case { what: "alter type add value", sql: render(&|| st.to_string(PostgresQueryBuilder)), expect: Some(n("alter-type", v)), class: None } }
                 3 => { let st = Type::alter().name(a(&nm)).rename_value(a("ok"), a("fine")); Case { what: "alter type rename value", sql: render(&|| st.to_string(PostgresQueryBuilder)), expect: Some(n("alter-type", vec![l(format!("name:{nm}")), l("rename-value:ok:fine")])), class: None } }
                 _ => { let to = g.name("ty"); let st = Type::alter().name(a(&nm)).rename_to(a(&to)); Case { what: "alter type rename", sql: render(&|| st.to_string(PostgresQueryBuilder)), expect: Some(n("alter-type", vec![l(format!("name:{nm}")), l(format!("rename-to:{to}"))])), class: Some("C14.pg_alter_type_rename_to_literal") } }
